@@ -10,7 +10,7 @@ ID = "C07"
 RULE = (
     "complete product per part: (aero) asymmetric full-span surface sets x nx x ny x alpha x beta x omega x cg vs their reflection; "
     "(struct) asymmetric beams x tube/wingbox x generic loads vs reflection; (as) asymmetric aerostructural models (wing alone, wing + tail in both list orders) vs reflection; "
-    "(selfsym) mirror-symmetric full-span aerostructural models; (geom) left- vs right-half Geometry under each design variable and value; "
+    "(aerolr) symmetric aircraft of 1-3 surfaces, every choice of modelled half (left / right) per surface vs all-left; (selfsym) mirror-symmetric full-span aerostructural models; (geom) left- vs right-half Geometry under each design variable and value; "
     "non-trivial = the compared field is non-zero and (for reflections) the configuration differs from its mirror image"
 )
 ASSUMPTIONS = ["finite alphabets; nx<=4, ny<=7, <=2 surfaces", "coupled solvers tightened to rtol 1e-13", "OpenMDAO/NumPy/SciPy trusted"]
@@ -46,6 +46,12 @@ def states(tier, seed):
     for model, ny, pm in itertools.product(["tube", "wingbox"], [21, 41] if tier == "thorough" else [21], ["none", "both"]):
         st.append(dict(part="struct", model=model, pf="twdi", ny=ny, relief=True, pm=pm, fam=fam))
         st.append(dict(part="structlr", model=model, ny=(ny + 1) // 2, relief=True, pm=(pm == "both"), fam=fam))
+    # (a1') symmetric aircraft, every choice of modelled half per surface: (L), (R), (L,L), (R,R), (L,R), (R,L), three surfaces
+    # L/R/L and R/L/R - the handedness belongs to each surface, so all describe the same aircraft
+    for pf, nx, ny, al, nsurf, comp in itertools.product(["swept", "twdi", "camber"], [2, 3], [3, 4], [5.0, -3.0], [1, 2, 3], [False, True]):
+        if pf == "camber" and nx < 3:
+            continue
+        st.append(dict(part="aerolr", pf=pf, nx=nx, ny=ny, alpha=al, nsurf=nsurf, comp=comp, fam=fam))
     # (a2) struct alone
     for model, pf, ny, relief, pm in itertools.product(["tube", "wingbox"], ["swept", "twdi"], nys, [False, True], ["none", "left_inboard", "right_outboard", "both"]):
         st.append(dict(part="struct", model=model, pf=pf, ny=ny, relief=relief, pm=pm, fam=fam))
@@ -160,6 +166,47 @@ def part_aero(s):
     _viol(viol, "reflection", "CM", p2["ap.CM"], p1["ap.CM"] * AXIAL, max(np.abs(p1["ap.CM"]).max(), 1e-3), TOL, wh)
     asym = np.abs(flipF(p1["ap.aero_states.s0_sec_forces"]) - p1["ap.aero_states.s0_sec_forces"]).max() / Fsc
     return dict(viol=viol, nontrivial=bool(Fsc > 1e-9 and asym > 1e-6), digest=digest_arrays(p1["ap.aero_states.s0_sec_forces"]), transitions=2, validated=val)
+
+
+def part_aerolr(s):
+    """one mirror-symmetric aircraft (1-3 symmetric surfaces); every surface modelled by its left or by its right half, all
+    2^n choices: coefficients equal, sectional forces of a right-half surface are the mirror image of the left-half ones"""
+    fam, n = s["fam"], s["nsurf"]
+    left = [gen.make_mesh(s["pf"], s["nx"], s["ny"], "left", fam)]
+    if n >= 2:
+        left.append(gen.make_mesh("swept", 2, 3, "left", fam, span=3.0, chord=0.8, offset=[5.0, 0.0, 0.7]))
+    if n >= 3:
+        left.append(gen.make_mesh("rect", 3, 2, "left", fam, span=2.0, chord=0.5, offset=[-3.0, 0.0, -0.4]))
+
+    def run(hands):
+        meshes = [m if h == "L" else gen.mirror_mesh(m) for m, h in zip(left, hands)]
+        surfs = [builders.aero_surface("s%d" % k, m, True, with_viscous=True, CD0=0.01) for k, m in enumerate(meshes)]
+        fl = dict(v=60.0, alpha=s["alpha"], beta=0.0, rho=1.1, cg=[0.5, 0.0, -0.1])
+        if s["comp"]:
+            fl["Mach_number"] = 0.6
+        p = builders.build_aero(surfs, fl, compressible=s["comp"])
+        p.run_model()
+        return p
+
+    ref = run("L" * n)
+    viol, val = [], 0
+    Fsc = max(max(np.abs(ref["ap.aero_states.s%d_sec_forces" % k]).max() for k in range(n)), gen.force_floor(1.1, 60.0, left))
+    for hands in itertools.product("LR", repeat=n):
+        if set(hands) == {"L"}:
+            continue
+        p = run(hands)
+        wh = dict(part="aerolr", nsurf=n, comp=s["comp"], mixed=len(set(hands)) > 1)
+        for k, h in enumerate(hands):
+            F = p["ap.aero_states.s%d_sec_forces" % k]
+            val += 1
+            _viol(viol, "left_vs_right_half", "sec_forces", flipF(F) if h == "R" else F, ref["ap.aero_states.s%d_sec_forces" % k], Fsc, TOL, wh)
+            for q in ("CL", "CD", "CDv", "CDi"):
+                val += 1
+                _viol(viol, "left_vs_right_half", q, p["ap.s%d_perf.%s" % (k, q)], ref["ap.s%d_perf.%s" % (k, q)], max(abs(ref["ap.s%d_perf.%s" % (k, q)][0]), 1e-3), TOL, wh)
+        for q in ("CL", "CD", "CM"):
+            val += 1
+            _viol(viol, "left_vs_right_half", q + "_total", p["ap." + q], ref["ap." + q], max(np.abs(ref["ap." + q]).max(), 1e-3), TOL, wh)
+    return dict(viol=viol, nontrivial=bool(Fsc > 1e-9), digest=digest_arrays(ref["ap.aero_states.s0_sec_forces"]), transitions=2**n, validated=val)
 
 
 def flipD(d):
